@@ -115,6 +115,59 @@ def options_reset_rules(prog, cg, reach, rep):
            ri.site(bind[0]) if bind else ri.site(), "" if ok else "no `self.nonorthogonal_options_factory = self.equilibrium.nonorthogonal_options_factory` before the first create(): the class-level factory (fixed defaults) would be used by resets", key="reset/factory/region")
 
 
+def spacing_source_rules(prog, rep):
+    """EquilibriumRegion.getSpacings collects the end spacings of a region.  The entries that seed
+    the orthogonal base grid (sqrt_*, nonorthogonal_orthogonal_*: used when the region is first
+    gridded and for the stored orthogonal spacing functions) must come from the orthogonal
+    options only, so that the base grid does not depend on the non-orthogonal settings a mesh was
+    created with; the entries for the non-orthogonal spacing come from the non-orthogonal
+    options.  The lower and the upper end are treated alike: the same kind of end (wall / X) reads
+    the same source for the same entry."""
+    from ..stores import effects
+    f = prog.func(EQ, "EquilibriumRegion.getSpacings")
+    mod = f.module
+    table = {}  # (base, end, kind) -> source text
+    for e in effects(f.node, inline=False):
+        if e.kind != "store" or not isinstance(e.target, ast.Name):
+            continue
+        nm = e.target.id
+        end = "lower" if "_lower" in nm else ("upper" if "_upper" in nm else None)
+        if end is None:
+            continue
+        base = nm.replace("_" + end, "")
+        cs = [T(mod, c) for c in e.conds if not isinstance(c, str)]
+        kind = None
+        for c in cs:
+            for k in ("wall", "X"):
+                if c == K('self.kind.split(".")[%d] == "%s"' % (0 if end == "lower" else 1, k)):
+                    kind = k
+        if kind is None:
+            rep.ob("R2", "getSpacings: `%s` is set under a test of the %s end's kind" % (nm, end), False, f.site(e.node), "conditions: %s" % cs, key="spacings/cond/" + nm)
+            continue
+        table[(base, end, kind)] = T(mod, e.value)
+    n = 0
+    for (base, end, kind), src in sorted(table.items()):
+        if end != "lower":
+            continue
+        other = table.get((base, "upper", kind))
+        n += 1
+        rep.ob("R2", "getSpacings: `%s` at a %s end reads the same source at the lower and at the upper end" % (base, kind), other == src, f.site(),
+               "lower: %s; upper: %s" % (src, other), key="spacings/sides/%s/%s" % (base, kind))
+    rep.floor("R2.spacing-entries", n, 14)
+    for (base, end, kind), src in sorted(table.items()):
+        uses_non = "nonorthogonal" in src
+        if base.startswith("sqrt_") or base.startswith("nonorthogonal_orthogonal_"):
+            rep.ob("R2", "getSpacings: `%s_%s` (%s end), which seeds the orthogonal base grid, does not read a non-orthogonal option" % (base, end, kind), not uses_non, f.site(), src,
+                   key="spacings/orthogonal-source/%s/%s/%s" % (base, end, kind))
+        elif base.startswith("monotonic_") or base.startswith("nonorthogonal_range"):
+            rep.ob("R2", "getSpacings: `%s_%s` (%s end) reads the non-orthogonal options" % (base, end, kind), uses_non, f.site(), src, key="spacings/nonorthogonal-source/%s/%s/%s" % (base, end, kind))
+    # getTargetParameter sends a key to the non-orthogonal options exactly when it names one
+    g = prog.func(EQ, "EquilibriumRegion.getTargetParameter")
+    src = T(g.module, g.node)
+    ok = K('if "nonorthogonal" in prefix: options = self.nonorthogonal_options') in src and K("else: options = self.user_options") in src
+    rep.ob("R2", "getTargetParameter reads nonorthogonal_* keys from the non-orthogonal options and all other keys from the user options", ok, g.site(), "", key="spacings/target-parameter")
+
+
 def cache_rules(prog, rep):
     """every PsiContour method that changes the point list invalidates (or replaces) the cached
     distance (also a premise of C05: hy and poloidal_distance are read from that cache)"""
@@ -223,6 +276,7 @@ def run(rep, tier):
     d = prog.func(MESH, "MeshRegion.distributePointsNonorthogonal")
     ok = "self.sfunc_orthogonal_list" in T(d.module, d.node) and "sfunc_orthogonal_list" not in stores(d)
     rep.ob("R2", "redistribution reads the stored orthogonal spacing functions and does not rebuild them", ok, d.site(), "", key="firstbuild/sfunc-read")
+    spacing_source_rules(prog, rep)
     cache_rules(prog, rep)
     rep.notes.append("advisory: getRegridded -> temporaryExtend -> prepend/append resets the fine contour when guard points are added, so the fine contour is rebuilt from the current (history-dependent) coarse points; equality holds only within the refinement tolerance and is not decidable statically")
     rep.undecided("equality within tolerance of regridded and freshly built grids")
